@@ -22,7 +22,7 @@ pub fn spec() -> Spec {
         case_cap_s: |t| t.pick(300, 3600),
         rule: "one case per connected complete symbol: every labeled symbol (all renumberings) of dimension 2 size <= 3 and dimension 3 size <= 2, one representative per isomorphism class of D-sets x all branching vectors over {1,2,3} for dimension 2 size 4 (thorough: 5) and dimension 3 size 3 (thorough). Per case: oriented_cover; covers(s, k) for every k up to the sheet bound; finite_universal_cover and subgroup_cover for every set of <= 2 words of length <= 2 when the group (reference Todd-Coxeter on the textbook presentation) has at most the order bound. Oracle: each returned symbol is complete, valid, connected and admits a chamber map onto the base (searched from every base image, not assumed) that commutes with all operations, preserves all degrees and has equal fibres; oriented cover is oriented with 1 or 2 sheets; universal cover has |G| sheets; number of covers per sheet number = number of conjugacy classes of subgroups of that index (homomorphism-counting oracle on the textbook presentation); covers pairwise inequivalent as coverings. Non-trivial = the symbol has a proper cover within the bounds.",
         assumptions: &["class counts are computed only while (n!)^generators <= 2*10^6 for the textbook presentation; skipped counts are reported", "pairwise inequivalence uses the projection d -> (d-1) mod size + 1 documented by derived::cover, and only after verifying that it is a covering map for both covers"],
-        bounds: |t| json!({"dim2_labeled_max_size": 3, "dim2_class_rep_size": t.pick(5, 6), "dim3_labeled_max_size": 2, "dim3_class_rep_size": 3, "V": [1,2,3], "sheet_bound": t.pick(4, 5),
+        bounds: |t| json!({"dim2_labeled_max_size": 3, "dim2_class_rep_size": t.pick(5, 6), "dim3_labeled_max_size": 2, "dim3_class_rep_size": 3, "V": [1,2,3], "sheet_bound": t.pick(4, 5), "deep_family": {"bases": "25 tiny symbols with degrees up to 12 (triangle groups, 3D Coxeter groups, 3-chamber chains)", "sheet_bound": t.pick(10, 12)},
             "group_order_bound": t.pick(384, 1152), "subgroup_word_len": 2, "subgroup_max_words": 2}),
     }
 }
@@ -223,6 +223,107 @@ pub fn check_symbol(ctx: &mut Ctx, family: &str, s: &RS) {
     }
 }
 
+/// many-sheeted covers of tiny symbols with larger degrees (triangle groups such as (2,3,7), (2,3,8), (2,4,5),
+/// 3-dimensional Coxeter groups): the low-index search behind `covers` reaches index 10 [12] here, far beyond
+/// the exhaustive family.  Every entry must be a genuine covering with at most k sheets, the list for k must
+/// extend the list for k - 1 without changing the counts per sheet number, and no two entries may be
+/// equivalent as coverings.  (No class count: the homomorphism-counting reference stops at index 7.)
+fn deep_covers(ctx: &mut Ctx) {
+    let kmax = ctx.tier.pick(10, 12);
+    let mut bases: Vec<RS> = vec![];
+    for (a, b) in [(3usize, 7usize), (7, 3), (3, 8), (4, 5), (5, 4), (5, 5), (3, 10), (4, 6), (3, 6), (4, 4), (3, 12), (6, 6), (3, 5), (2, 9)] {
+        bases.push(RS { n: 1, ops: vec![vec![0]; 3], v: vec![vec![a], vec![b]] });
+    }
+    for (a, b, c) in [(4usize, 3usize, 4usize), (5, 3, 4), (3, 5, 3), (6, 2, 6), (9, 2, 9), (4, 3, 5), (3, 3, 6), (6, 3, 6)] {
+        bases.push(RS { n: 1, ops: vec![vec![0]; 4], v: vec![vec![a], vec![b], vec![c]] });
+    }
+    // <1.1:3:1 2 3,1 3,2 3:3 10,3> and relatives: three chambers in a chain
+    for (x, y, z) in [(3usize, 10usize, 3usize), (4, 7, 3), (3, 7, 4)] {
+        let ops = vec![vec![0, 1, 2], vec![0, 2, 1], vec![1, 0, 2]];
+        let plain = RS::from_ops(ops.clone());
+        let m0 = [x, y, y];
+        let m1 = [z, z, z];
+        let mut v = vec![vec![0; 3]; 2];
+        let mut ok = true;
+        for d in 0..3 {
+            let (r0, r1) = (plain.r(0, 1, d), plain.r(1, 2, d));
+            if m0[d] % r0 != 0 || m1[d] % r1 != 0 {
+                ok = false;
+            }
+            v[0][d] = m0[d] / r0.max(1);
+            v[1][d] = m1[d] / r1.max(1);
+        }
+        let s = RS { n: 3, ops, v };
+        if ok && valid_symbol(&s).is_ok() {
+            bases.push(s);
+        }
+    }
+    for s in bases {
+        if !ctx.take() {
+            continue;
+        }
+        let case = json!({"family": "deep", "sym": rs_to_json(&s)});
+        ctx.announce(&case);
+        ctx.count(true);
+        let weight = 1000 + s.n as u64;
+        let cs = to_partial_dsym(&s);
+        let mut prev: Vec<usize> = vec![];
+        for k in [kmax - 1, kmax] {
+            let kcase = json!({"family": "deep", "sym": rs_to_json(&s), "max_sheets": k});
+            ctx.announce(&kcase);
+            let list = match ctx.guard(|| covers(&cs, k).iter().map(|c| from_dsym(c)).collect::<Vec<_>>()) {
+                Ok(l) => l,
+                Err(m) => {
+                    ctx.violation("panic:covers", kcase, format!("covers(s, {}): {}", k, m), weight);
+                    return;
+                }
+            };
+            let mut by_sheets = vec![0usize; k + 1];
+            let mut ok_list: Vec<RS> = vec![];
+            for c in &list {
+                match check_cover(ctx, &kcase, "covers", &s, c, weight) {
+                    Some(sh) if sh >= 1 && sh <= k => {
+                        by_sheets[sh] += 1;
+                        ok_list.push(c.clone().unwrap());
+                    }
+                    Some(sh) => {
+                        ctx.violation("too-many-sheets", kcase.clone(), format!("a cover has {} sheets, bound is {}", sh, k), weight);
+                        return;
+                    }
+                    None => return,
+                }
+            }
+            ctx.add("deep_covers_checked", list.len() as i64);
+            if !prev.is_empty() && prev[1..] != by_sheets[1..prev.len()] {
+                ctx.violation("cover-count", kcase.clone(), format!("covers per sheet number {:?} for bound {}, but {:?} for bound {}", &by_sheets[1..], k, &prev[1..], k - 1), weight);
+                return;
+            }
+            prev = by_sheets;
+            if k == kmax {
+                let projs: Vec<Option<Vec<usize>>> = ok_list.iter().map(|c| { let p: Vec<usize> = (0..c.n).map(|d| d % s.n).collect(); if is_covering_map(c, &s, &p) { Some(p) } else { None } }).collect();
+                if projs.iter().all(|p| p.is_some()) {
+                    'pairs: for a in 0..ok_list.len() {
+                        for b in (a + 1)..ok_list.len() {
+                            if ok_list[a].n != ok_list[b].n {
+                                continue;
+                            }
+                            let (pa, pb) = (projs[a].as_ref().unwrap(), projs[b].as_ref().unwrap());
+                            for phi in ok_list[a].morphisms(&ok_list[b]) {
+                                if (0..ok_list[a].n).all(|d| pb[phi[d]] == pa[d]) {
+                                    ctx.violation("equivalent-covers", kcase.clone(), format!("covers number {} and {} of the list are equivalent as coverings", a + 1, b + 1), weight);
+                                    break 'pairs;
+                                }
+                            }
+                        }
+                    }
+                } else {
+                    ctx.add("layout_not_documented_projection", 1);
+                }
+            }
+        }
+    }
+}
+
 fn class_representatives(dim: usize, n: usize) -> Vec<Vec<Vec<usize>>> {
     let mut reps: BTreeSet<Vec<Vec<usize>>> = BTreeSet::new();
     for_each_labeled_set(dim, n, true, &mut |ops| {
@@ -246,6 +347,10 @@ fn run(ctx: &mut Ctx) {
                 }
             });
         }
+    }
+    deep_covers(ctx);
+    if ctx.nviolations() > 0 {
+        return;
     }
     let mut fams: Vec<(usize, usize)> = vec![(2, 4), (2, 5), (3, 3)];
     if tier.is_thorough() {
